@@ -167,6 +167,18 @@ CHECKS = {
     note=("Trusted: z3, interpreter. Only O1 is solver-decided; O2/O3 are exhaustive enumeration / direct execution on real connections "
           "(a loopback socket for O3). Nesting depth 1 (quick)/2 (thorough), arity <= 2."),
     technique="symbolic execution of the Python AST (boxing decision) + exhaustive differential histories on real connections"),
+ "C10": dict(
+    category="other", design_ref="DESIGN.md section 4 (C10)",
+    text=("Inductive step with symbolic counts on the real code: from an arbitrary state (owner's count, proxy's count, references in flight and "
+          "up to two release notices in flight as solver Ints, slot present / proxy alive as choices) satisfying the reference-count invariant, each "
+          "real transition -- _box again, _unbox (cached or fresh proxy), BaseNetref.__del__ sending its whole count, _handle_del/decref -- must "
+          "re-establish it (z3, LIA); the invariant implies that live proxies resolve and that the table is empty at quiescence. Cross-check and "
+          "replay vehicle: every history of <=6 events over {box object 0/1, peer consumes next item, peer drops a proxy, owner consumes next "
+          "frame} on two real connections with manual frame delivery, i.e. all relative orders of the two one-way streams incl. a release crossing "
+          "a fresh reference."),
+    note=("Trusted: z3, interpreter, the induction principle and the stated invariant; histories are exhaustive enumeration with native execution "
+          "(gc.collect at drop events). Connection close is C11; a GC racing the weak cache on another thread is outside."),
+    technique="inductive invariant step by symbolic execution of the Python AST + z3 (LIA); exhaustive bounded histories on real connections"),
 }
 
 NOT_YET = {}
